@@ -127,7 +127,12 @@ impl SwiftField for Field52B {
         // Check for location
         if current_idx < lines.len() {
             let loc = lines[current_idx];
-            if !loc.is_empty() && loc.len() <= 35 {
+            if loc.len() > 35 {
+                return Err(ParseError::InvalidFormat {
+                    message: "Field 52B location exceeds 35 characters".to_string(),
+                });
+            }
+            if !loc.is_empty() {
                 parse_swift_chars(loc, "Field 52B location")?;
                 location = Some(loc.to_string());
             }
